@@ -267,7 +267,7 @@ def trace_counts(path):
                 ntr += 1
             elif '"ev":"header"' not in line:
                 nev += 1
-    return ntr, nev
+    return (ntr or nev), nev
 
 
 def extract_subtrace(path, line):
